@@ -114,6 +114,33 @@ class Lemmas:
                     return None
                 out[kind] = q
                 vecs.add(sym.show(recv))
+            elif last == "extend" and "Vec" in (name or "") and len(t["args"]) == 2:
+                # `v.extend(self.<queue>.iter().enumerate().map(|(i, s)| (_, Kind::<V>, i)))`: the same entries as the push loop
+                recv = sym.expr(b, t["args"][0])
+                it_ = sym.expr(b, t["args"][1])
+                if not (it_[0] == "call" and it_[1].split("::")[-1] == "map" and len(it_[2]) == 2 and it_[2][1][0] == "agg" and str(it_[2][1][1]).startswith("closure ")):
+                    return None
+                src_ = it_[2][0]
+                if not (src_[0] == "call" and src_[1].split("::")[-1] == "enumerate" and src_[2]):
+                    return None
+                base = src_[2][0]
+                while base[0] == "ref" or (base[0] == "call" and base[1].split("::")[-1] in ("iter", "into_iter", "deref", "as_slice") and base[2]):
+                    base = base[1] if base[0] == "ref" else base[2][0]
+                if not (base[0] in ("refplace", "load") and isinstance(base[1], str) and base[1].startswith("arg1.") and base[1].count(".") == 1):
+                    return None
+                cands = [k for k in self.u.bodies if mir.norm(k) == mir.norm(str(it_[2][1][1])[len("closure "):])]
+                if len(cands) != 1:
+                    return None
+                cb = self.u.bodies[cands[0]]
+                val = sym.expr_local(cb, 0)
+                if not (val[0] == "agg" and val[1] == "tuple" and len(val[3]) == 3 and val[3][1][0] == "agg" and self.closure_param_enum_index(cands[0], val[3][2])):
+                    return None
+                kind = str(val[3][1][1]).split("::")[-1]
+                q = base[1].split(".")[1]
+                if out.get(kind, q) != q:
+                    return None
+                out[kind] = q
+                vecs.add(sym.show(recv))
             elif any(a.get("k") in ("copy", "move") and mir._mut_ptr_arg(a["place"]["ty"]) for a in t["args"]):
                 others.append((last, [sym.show(sym.expr(b, a)) for a in t["args"] if a.get("k") in ("copy", "move") and mir._mut_ptr_arg(a["place"]["ty"])]))
         if len(vecs) != 1 or not out:
@@ -872,7 +899,7 @@ class Lemmas:
                 continue
             for bb, t, name, info in mir.calls(pb):
                 args = [sym.expr(pb, a) for a in t["args"]]
-                if not any(isinstance(y, tuple) and y and y[0] == "agg" and str(y[1]) == want for a in args for y in sym.walk(a)):
+                if not any(isinstance(y, tuple) and y and y[0] == "agg" and mir.norm(str(y[1])) == mir.norm(want) for a in args for y in sym.walk(a)):
                     continue
                 last = mir.norm(name or "").split("::")[-1]
                 recv = args[0] if args else None
@@ -881,8 +908,8 @@ class Lemmas:
                     recv = recv[2][0]
                 if last in ("filter_map", "map", "for_each", "filter", "any", "all", "position", "find_map", "flat_map") and len(args) == 2 and recv is not None and recv[0] == "call" and recv[1].split("::")[-1] == "enumerate":
                     n += 1
-                elif last in ("collect", "count", "sum", "next", "last"):
-                    continue
+                elif last in ("collect", "count", "sum", "next", "last", "extend"):
+                    continue            # consumers of the adapted iterator: the closure still only sees the enumerate pairs
                 else:
                     return False
         return n == 1
